@@ -170,13 +170,19 @@ def gen_nest(rnd, depth, visible, names):
     var = rnd.choice(names)
     kind = rnd.choice(["map", "map", "filter", "exists", "all", "exists_one"])
     base = rnd.randint(1, 3) * 10 ** (depth + 1)
-    lst = Node("list", ("list", "int"), *[Node("lit", "int", ("int", base + i)) for i in range(rnd.randint(1, 3))])
+    lst = Node("list", ("list", "int"), *[Node("lit", "int", ("int", base + i)) for i in range(rnd.choice([1, 2, 2, 3, 3]))])
     inner_visible = dict(visible)
     inner_visible[var] = "int"
     body_val = Node("bin", "int", "+", use(rnd, inner_visible), gen_nest(rnd, depth - 1, inner_visible, names)) if rnd.random() < 0.8 else gen_nest(rnd, depth - 1, inner_visible, names)
     if kind == "map":
         m = Node("macro", ("list", "int"), "map", lst, var, body_val)
+        n_items = len(lst.a)
+        # every element of the result is observable: first + 7 * last (+ 13 * middle)
         core_e = Node("index", "int", m, Node("lit", "int", ("int", 0)))
+        if n_items >= 2:
+            core_e = Node("bin", "int", "+", core_e, Node("bin", "int", "*", Node("index", "int", m, Node("lit", "int", ("int", n_items - 1))), Node("lit", "int", ("int", 7))))
+        if n_items >= 3:
+            core_e = Node("bin", "int", "+", core_e, Node("bin", "int", "*", Node("index", "int", m, Node("lit", "int", ("int", 1))), Node("lit", "int", ("int", 13))))
     elif kind == "filter":
         pred = Node("bin", "bool", ">", body_val, Node("lit", "int", ("int", rnd.choice([0, base, 10**6]))))
         m = Node("macro", ("list", "int"), "filter", lst, var, pred)
